@@ -81,6 +81,21 @@ class CsvDataFile():
         return self.data
 
 
+def is_closing_quote(t, escapechar):
+    ''' Whether t ends with a quote that is not escaped, i.e. preceded by an
+    even number of escape characters.
+    '''
+    if len(t) == 0 or t[-1] != '"':
+        return False
+
+    count = 0
+    index = len(t) - 2
+    while index >= 0 and t[index] == escapechar:
+        count += 1
+        index -= 1
+    return count % 2 == 0
+
+
 def merge_escape_parts(parts, separator, escapechar):
     try:
         merged_parts = []
@@ -93,9 +108,9 @@ def merge_escape_parts(parts, separator, escapechar):
                     agg.append('"')
                     merged_parts.append(separator.join(agg))
                     agg = None
-            elif len(t) > 0 and t[0] == '"' and t[-1] == '"' and t[-2] != escapechar and agg is None:
+            elif len(t) > 0 and t[0] == '"' and is_closing_quote(t, escapechar) and agg is None:
                 merged_parts.append(t)
-            elif len(t) > 0 and t[-1] == '"' and t[-2] != escapechar and agg is not None:
+            elif len(t) > 0 and is_closing_quote(t, escapechar) and agg is not None:
                 agg.append(t)
                 merged_parts.append(separator.join(agg))
                 agg = None
